@@ -399,7 +399,10 @@ pub fn run(report: &Report, thorough: bool) -> Evidence {
 
     // ---------- (c) phonetic history graph ----------
     {
-        let mut keys: Vec<Ev> = "aerso:).`'1".chars().map(Ev::ch).collect();
+        let mut keys: Vec<Ev> = "aerso:)`'1".chars().map(Ev::ch).collect();
+        // the full stop is pressed with the selection byte 255 ("any selection byte" is in contract; a selection-preserving
+        // punctuation key hands the byte on, and later events - commits of every index among them - meet it)
+        keys.push(Ev::Key { code: crate::keys::code_for_char('.').unwrap(), m: 0, sel: 255 });
         keys.push(Ev::key(crate::keys::by_name("VC_KP_ENTER").unwrap().code));
         keys.push(Ev::key(crate::keys::by_name("VC_KP_EQUALS").unwrap().code));
         let depth = if thorough { 5 } else { 4 };
